@@ -18,6 +18,7 @@ import SfntV.Proofs.OtlGpos22
 import SfntV.Proofs.OtlContext
 import SfntV.Proofs.OtlLookupRead
 import SfntV.Proofs.OtlCovRange
+import SfntV.Proofs.OtlInfoAdapter
 
 namespace SfntV.Props.C08
 open SfntV SfntV.Otl
@@ -749,6 +750,35 @@ flags, mark filtering sets (present exactly with flag 0x0010) and subtable posit
 theorem C08_readlookuplist_sound (b : Bytes) (extType : Nat) (ls : List (LL.ReadLookup Nat))
     (h : LL.readLL b extType = .ok ls) : LL.specRead b extType = some (ls.map LL.toSpec) :=
   LL.readLL_spec b extType ls h
+
+/-! ## One `Info` value: decode ∘ encode = normal form (adapter for the file-level round trip, C01)
+
+`InfoA.Info σ` is `gtab.Info` with subtables of type `σ`; `InfoA.SubCodec σ` says how a subtable is
+written, how it is read at a position, its normal form, and the law `dec tp (enc s ++ tail) = nf s` that
+the per-subtable round trips provide.  `Info.encode` composes the encoders of the three lists (the lookup
+list with its reordering / extension logic) under the header; `Info.read` reads the header, the script
+list, the feature list, the lookup list with the specification reader (`C08_readlookuplist_sound`: the
+Go reader agrees with it wherever it accepts) and every subtable with the codec.  Normal form: script
+entries grouped by script in tag order (default language system first), the mark filtering set only
+with its flag, subtables in the codec's normal form. -/
+
+theorem C08_info_roundtrip {σ : Type} (C : InfoA.SubCodec σ) (extType : Nat) (I : InfoA.Info σ)
+    (hI : InfoA.InfoOk C extType I) (b : Bytes) (hb : InfoA.Info.encode C I = .ok b) :
+    InfoA.Info.read C extType b = .ok (InfoA.Info.nf C I) :=
+  InfoA.info_roundtrip C extType I hI b hb
+
+/-- Non-vacuity: a lawful codec (GSUB 1.1 behind the real dispatcher `Gsub.readSubtable`) and an `Info`
+of the domain that `Info.encode` writes. -/
+theorem C08_info_roundtrip_nonvacuous :
+    InfoA.InfoOk InfoA.gsub11Codec 7 InfoA.exInfo ∧ ∃ b, InfoA.Info.encode InfoA.gsub11Codec InfoA.exInfo = .ok b :=
+  ⟨InfoA.exInfo_ok, InfoA.exInfo_encodes⟩
+
+/-- GDEF as one value (`InfoA.GdefV`): whenever `Encode` returns bytes for a table of the domain, `Read`
+succeeds and gives the table back (`Matches`: class tables as functions - the reader's normal form is
+the list of non-zero entries -, mark glyph sets exactly, nil as nil). -/
+theorem C08_gdef_roundtrip_value (g : InfoA.GdefV) (hg : InfoA.GdefOk g) (b : Bytes)
+    (hb : g.encode = .ok b) : ∃ r, Gdef.read b = .ok r ∧ g.Matches r :=
+  InfoA.gdef_roundtrip_value g hg b hb
 
 /-! ## Post-condition of the subtable readers: coverage indices are in range
 
